@@ -188,7 +188,9 @@ func ZZC18Regex() {
 
 // ZZC18RegexType: /P/ added as @T accepts what inline {regex: P} accepts (concrete patterns).
 func ZZC18RegexType() {
-	pats := []string{`^a.c$`, `[0-9]+`, `^(ab|cd)$`, `x\/y`, `^\d{2}-\d$`, `A`}
+	pats := []string{`^a.c$`, `[0-9]+`, `^(ab|cd)$`, `x\/y`, `^\d{2}-\d$`, `A`,
+		// patterns whose generated example holds a double quote or a backslash
+		`^say "hi"$`, `^C:\\dir$`, `^a\\b$`, `^"$`, `^\\$`, `q"+`, `^[\\"]{2}$`}
 	p := pats[v.Choose(0, len(pats)-1)]
 	v.Observe("pattern", p)
 	rt := regex.New("@t", "/"+p+"/", regex.WithGeneratorSeed(1))
@@ -214,7 +216,7 @@ func ZZC18RegexType() {
 		return
 	}
 	v.Reach("C18/regex-type")
-	doc, _ := docString(3, 2)
+	doc, _ := docString(v.Param("docpieces", 3), v.Param("dockinds", 4))
 	v.Observe("doc", doc)
 	r1 := s1.Validate(json.New("d", doc))
 	r2 := s2.Validate(json.New("d", doc))
